@@ -21,7 +21,7 @@ def futsOf (s : State) (r : Role) : List Nat :=
     | none => false)
 
 /-- Candidate ops in state `s` for the alphabet `al` (a set of group letters). -/
-def candidates (al : String) (s : State) : List SeqOp :=
+def candidates1 (al : String) (s : State) : List SeqOp :=
   let has (c : Char) : Bool := al.toList.contains c
   let m := s.offered.length + 1
   let sf := futsOf s .send
@@ -59,6 +59,30 @@ def candidates (al : String) (s : State) : List SeqOp :=
                     .obs .isClosed .send, .obs (.isDisconnected .send) .send, .obs (.isDisconnected .recv) .recv,
                     .obs .isTerminated .recv] else [])
 
+/-- Candidate moves: single ops, plus macro moves (several ops taken as one DFS step) that build
+    deep waiting lists cheaply: `P` = create a send future and poll it once, `Q` = the same for a
+    receive future (up to 4 alive futures per side). -/
+def candidates (al : String) (s : State) : List (List SeqOp) :=
+  let has (c : Char) : Bool := al.toList.contains c
+  let m := s.offered.length + 1
+  let sf := futsOf s .send
+  let rf := futsOf s .recv
+  (candidates1 al s).map (fun o => [o]) ++
+  (if has 'P' && sf.length < 4 then [[SeqOp.asend m, SeqOp.pollS s.sigs.length 0]] else []) ++
+  (if has 'P' then sf.map (fun f => [SeqOp.dropSF f]) else []) ++
+  (if has 'Q' && rf.length < 4 then [[SeqOp.arecv false, SeqOp.pollR s.sigs.length 0]] else []) ++
+  (if has 'Q' then rf.map (fun f => [SeqOp.dropRF f]) ++ rf.map (fun f => [SeqOp.pollR f 0]) else [])
+
+/-- Apply a move (a list of ops); `none` if one of them is not enabled. -/
+def applyMove (s : State) (mv : List SeqOp) : Option (State × List String × List String) :=
+  mv.foldl (fun acc op =>
+    match acc with
+    | none => none
+    | some (st, ops, res) =>
+      match seqStep Variant.good st op with
+      | none => none
+      | some (s1, txt, r) => some (s1, txt :: ops, (resStr r ++ effectStr st s1 op) :: res)) (some (s, [], []))
+
 def capStr : Option Nat → String
   | none => "u"
   | some n => toString n
@@ -77,12 +101,12 @@ partial def dfs (al : String) (cap : Option Nat) (depth : Nat) (s : State) (ops 
   if depth == 0 then emit cap s ops res
   else
     let mut any := false
-    for op in candidates al s do
-      match seqStep Variant.good s op with
+    for mv in candidates al s do
+      match applyMove s mv with
       | none => pure ()
-      | some (s1, txt, r) =>
+      | some (s1, o1, r1) =>
         any := true
-        dfs al cap (depth - 1) s1 (txt :: ops) ((resStr r ++ effectStr s s1 op) :: res)
+        dfs al cap (depth - 1) s1 (o1 ++ ops) (r1 ++ res)
     if !any then emit cap s ops res
 
 def lcg (x : UInt64) : UInt64 := x * 6364136223846793005 + 1442695040888963407
@@ -91,25 +115,28 @@ partial def walk (al : String) (cap : Option Nat) (len : Nat) (rng : UInt64) (s 
     (ops res : List String) : IO UInt64 := do
   if len == 0 then emit cap s ops res; return rng
   else
-    let en := (candidates al s).filterMap fun op =>
-      match seqStep Variant.good s op with
-      | some (s1, txt, r) => some (op, s1, txt, r)
+    let en := (candidates al s).filterMap fun mv =>
+      match applyMove s mv with
+      | some (s1, o1, r1) => some (mv, s1, o1, r1)
       | none => none
     if en.isEmpty then emit cap s ops res; return rng
     else
-      -- observers are picked less often than state-changing calls
-      let weight (op : SeqOp) : Nat := match op with | .obs _ _ => 1 | _ => 4
-      let total := en.foldl (fun a (op, _) => a + weight op) 0
+      -- observers are picked less often than state-changing calls, close rarely
+      let weight (mv : List SeqOp) : Nat := match mv with
+        | [.obs _ _] => 1
+        | [.close _] => 1
+        | _ => 4
+      let total := en.foldl (fun a (mv, _) => a + weight mv) 0
       let rng := lcg rng
       let pick := ((rng >>> 33).toNat) % total
-      let rec sel (l : List (SeqOp × State × String × Res)) (k : Nat) : Option (SeqOp × State × String × Res) :=
+      let rec sel (l : List (List SeqOp × State × List String × List String)) (k : Nat) :
+          Option (List SeqOp × State × List String × List String) :=
         match l with
         | [] => none
         | x :: rest => if k < weight x.1 then some x else sel rest (k - weight x.1)
       match sel en pick with
       | none => emit cap s ops res; return rng
-      | some (op, s1, txt, r) =>
-        walk al cap (len - 1) rng s1 (txt :: ops) ((resStr r ++ effectStr s s1 op) :: res)
+      | some (_, s1, o1, r1) => walk al cap (len - 1) rng s1 (o1 ++ ops) (r1 ++ res)
 
 def parseSide (t : String) : Side := if t == "s" then .send else .recv
 
